@@ -16,6 +16,7 @@ struct Budgeted<'a> {
     limit: usize,
     nan_after: Option<f64>,
     jump_at: Option<f64>,
+    x0: f64,
 }
 impl<'a> IVP for Budgeted<'a> {
     fn ode(&self, t: f64, y: &[f64], d: &mut [f64]) {
@@ -24,10 +25,10 @@ impl<'a> IVP for Budgeted<'a> {
         }
         self.p.ode(t, y, d);
         if let Some(ts) = self.nan_after {
-            if t.abs() > ts.abs() { for v in d.iter_mut() { *v = f64::NAN; } }
+            if (t - self.x0).abs() > ts.abs() { for v in d.iter_mut() { *v = f64::NAN; } }
         }
         if let Some(tj) = self.jump_at {
-            if t.abs() > tj.abs() { for v in d.iter_mut() { *v = -*v + 3.0; } }
+            if (t - self.x0).abs() > tj.abs() { for v in d.iter_mut() { *v = -*v + 3.0; } }
         }
     }
     fn n_events(&self) -> usize { self.p.n_events() }
@@ -115,7 +116,8 @@ pub fn interval(args: &[String]) {
         p.record_times = true;
         p.user_jac = rng.chance(0.5);
         let with_event = rng.chance(0.3);
-        let y0 = p.y0();
+        // zero-norm starts (the first-step heuristic falls back to its default guess) now and then
+        let y0 = if rng.chance(0.15) { vec![0.0; p.n()] } else { p.y0() };
         if with_event {
             let tc = c.x0 + (c.xend - c.x0) * rng.range(0.2, 0.9);
             p.events = vec![EventSpec { a: 1.0, b: vec![0.0; p.n()], c: tc, dir: 0, terminal: if rng.chance(0.5) { Some(1) } else { None } }];
@@ -131,7 +133,7 @@ pub fn interval(args: &[String]) {
             pts.sort_by(|a, b| if d > 0.0 { a.partial_cmp(b).unwrap() } else { b.partial_cmp(a).unwrap() });
             o.t_eval = Some(pts);
         }
-        let b = Budgeted { p: &p, limit: 3_000_000, nan_after: None, jump_at: None };
+        let b = Budgeted { p: &p, limit: 3_000_000, nan_after: None, jump_at: None, x0: c.x0 };
         let res = catch_unwind(AssertUnwindSafe(|| solve_ivp(&b, c.x0, c.xend, &y0, o)));
         let dirn = (c.xend - c.x0).signum();
         let (lo, hi) = (c.x0.min(c.xend), c.x0.max(c.xend));
@@ -182,6 +184,35 @@ pub fn interval(args: &[String]) {
         }
         out("iv", case, &c, if use_teval { "teval" } else if with_event { "event" } else { "plain" }, key, &why, &extra);
     }
+    // stiff problems on the implicit methods: Newton failures, step rejections, singular iteration matrices (C18 counters)
+    for case in 0..(cases / 6 + 4) {
+        let kind = *rng.pick(&[Kind::VdPStiff, Kind::Robertson, Kind::Stiff, Kind::VdPStiff]);
+        let method = if rng.chance(0.6) { Method::RADAU } else { Method::BDF };
+        let xend = match kind { Kind::VdPStiff => rng.range(0.5, 30.0), Kind::Robertson => 10f64.powf(rng.range(0.0, 3.0)), _ => rng.range(0.5, 3.0) };
+        let rtol = 10f64.powf(-rng.range(2.5, 6.0));
+        let first = match rng.below(4) { 0 => Some(1e-2), 1 => Some(1.0), _ => None };
+        let c = Cfg { kind, method, x0: 0.0, xend, rtol, atol: rtol * 1e-3, first, maxstep: None, nmax: None };
+        let mut p = Prob::new(kind);
+        p.user_jac = rng.chance(0.5);
+        let y0 = p.y0();
+        let b = Budgeted { p: &p, limit: 3_000_000, nan_after: None, jump_at: None, x0: 0.0 };
+        let res = catch_unwind(AssertUnwindSafe(|| solve_ivp(&b, 0.0, xend, &y0, c.opts())));
+        let mut why = String::new();
+        let mut key = "";
+        let mut extra = String::new();
+        match res {
+            Err(_) => { why = "solve_ivp panicked or exceeded the work budget of 3e6 right-hand-side calls".into(); key = "c04-hang-or-panic"; }
+            Ok(Err(_)) => { extra = "\"status\":\"Err\",".into(); }
+            Ok(Ok(sol)) => {
+                extra = format!("\"status\":\"{:?}\",\"n\":{},\"nrejct\":{},", sol.status, sol.t.len(), sol.nrejct);
+                if sol.nfev != p.count.get() { why = format!("nfev = {} but the stepper made {} right-hand-side evaluations", sol.nfev, p.count.get()); key = "c18-nfev"; }
+                else if sol.njev != p.jcount.get() { why = format!("njev = {} but {} Jacobian evaluations were made", sol.njev, p.jcount.get()); key = "c18-njev"; }
+                else if sol.nstep < sol.naccpt { why = format!("nstep {} < naccpt {}", sol.nstep, sol.naccpt); key = "c18-nstep"; }
+                else if sol.status == Status::Success && !sol.y.iter().all(|v| finite(v)) { why = "Success with non-finite values".into(); key = "c03-nonfinite-success"; }
+            }
+        }
+        out("iv", 100000 + case, &c, "stiff", key, &why, &extra);
+    }
     // zero-length run
     let p = Prob::new(Kind::Harmonic);
     let sol = solve_ivp(&p, 0.7, 0.7, &p.y0(), Options::builder().build()).unwrap();
@@ -196,8 +227,8 @@ pub fn hostile(args: &[String]) {
     let cases: usize = args.get(1).and_then(|s| s.parse().ok()).unwrap_or(60);
     let mut rng = Rng(seed ^ 0xC04);
     for case in 0..cases {
-        let method = *rng.pick(&ALL_METHODS);
-        let variant = rng.below(5);
+        // the first 18 cases sweep the blow-up problem over every method and three non-zero origins
+        let (method, variant, forced_x0) = if case < 18 { (ALL_METHODS[case % 6], 0, Some([-3.0, -1000.0, 2.5][case / 6])) } else { (*rng.pick(&ALL_METHODS), rng.below(5), None) };
         let (kind, xend, nan_after, jump_at, name) = match variant {
             0 => (Kind::Blowup, rng.range(1.2, 3.0), None, None, "blow-up y'=y^2 (pole at t=1)"),
             1 => (Kind::Stiff, rng.range(0.5, 3.0), None, None, "stiff decay (rate 1000)"),
@@ -207,12 +238,15 @@ pub fn hostile(args: &[String]) {
         };
         let rtol = 10f64.powf(-rng.range(3.0, 7.0));
         let nmax = if rng.chance(0.4) { Some(50 + rng.below(2000)) } else { None };
-        let c = Cfg { kind, method, x0: 0.0, xend, rtol, atol: rtol * 1e-2, first: None, maxstep: None, nmax };
+        // the same scenario at an origin left or right of zero (all test problems except Riccati are autonomous)
+        let x0 = if kind == Kind::Riccati { 0.0 } else { forced_x0.unwrap_or(*rng.pick(&[0.0, 0.0, -3.0, -1000.0, 2.5])) };
+        let xend = x0 + xend;
+        let c = Cfg { kind, method, x0, xend, rtol, atol: rtol * 1e-2, first: None, maxstep: None, nmax };
         let p = Prob::new(kind);
         let y0 = p.y0();
-        let b = Budgeted { p: &p, limit: 20_000_000, nan_after, jump_at };
+        let b = Budgeted { p: &p, limit: 20_000_000, nan_after, jump_at, x0 };
         let t0 = std::time::Instant::now();
-        let res = catch_unwind(AssertUnwindSafe(|| solve_ivp(&b, 0.0, xend, &y0, c.opts())));
+        let res = catch_unwind(AssertUnwindSafe(|| solve_ivp(&b, x0, xend, &y0, c.opts())));
         let secs = t0.elapsed().as_secs_f64();
         let mut why = String::new();
         let mut key = "";
@@ -321,15 +355,28 @@ pub fn protocol(args: &[String]) {
     let cases: usize = args.get(1).and_then(|s| s.parse().ok()).unwrap_or(100);
     let mut rng = Rng(seed ^ 0xC19);
     for case in 0..cases {
+        // the first 40 cases are a sweep: slowly varying problem (long automatic first step) against a small max_step,
+        // every adaptive method, both directions
+        let directed = case < 40;
         let mut c = gen_cfg(&mut rng);
+        if directed {
+            let m = [Method::RK23, Method::DOPRI5, Method::DOP853, Method::RADAU, Method::BDF][case % 5];
+            let back = (case / 5) % 2 == 1;
+            let ms = if (case / 10) % 2 == 0 { 0.05 } else { 0.01 };
+            let rtol = if case / 20 == 0 { 1e-3 } else { 1e-6 };
+            c = Cfg { kind: Kind::Slow, method: m, x0: if back { 2.0 } else { 0.0 }, xend: if back { 0.0 } else { 2.0 }, rtol, atol: rtol * 1e-3, first: None, maxstep: Some(ms), nmax: None };
+        }
         let span = (c.xend - c.x0).abs();
         if span < 1e-6 || span > 10.0 { continue; }
         let sgn = (c.xend - c.x0).signum();
-        // C11 uses well-formed limits only
-        c.first = if rng.chance(0.5) { Some(sgn * span * rng.range(0.001, 0.05)) } else { None };
-        if let (Some(f), Some(m)) = (c.first, c.maxstep) { if f.abs() > m { c.first = Some(sgn * m * 0.5); } }
-        let linear = rng.chance(0.4);
-        if linear { c.kind = if rng.chance(0.5) { Kind::Harmonic } else { Kind::Decay3 }; }
+        if !directed {
+            if rng.chance(0.3) { c.maxstep = Some(span * rng.range(0.004, 0.05)); }
+            // C11 uses well-formed limits only
+            c.first = if rng.chance(0.5) { Some(sgn * span * rng.range(0.001, 0.05)) } else { None };
+            if let (Some(f), Some(m)) = (c.first, c.maxstep) { if f.abs() > m { c.first = Some(sgn * m * 0.5); } }
+        }
+        let linear = directed || rng.chance(0.4);
+        if linear && !directed { c.kind = *rng.pick(&[Kind::Harmonic, Kind::Decay3, Kind::Slow]); }
         let mut p = Prob::new(c.kind);
         p.record_times = true;
         let y0 = p.y0();
